@@ -76,13 +76,13 @@ def save(path, text, how):
 
 
 class Watcher:
-    def __init__(self, root, home, yardl, delays="", tag="", pkgdir="main"):
+    def __init__(self, root, home, yardl, delays="", tag="", pkgdir="main", args=()):
         self.root = root
         self.evlog = os.path.join(root, "events.log")
         self.racelog = os.path.join(root, "race")
         env = common.yardl_env(home, self.evlog, {"VERIF_DELAYS": delays, "GORACE": "halt_on_error=0 log_path=%s" % self.racelog})
         self.out = open(os.path.join(root, "watch.out"), "wb")
-        self.p = subprocess.Popen([yardl, "generate", "--watch"], cwd=os.path.join(root, pkgdir), env=env, stdout=self.out, stderr=subprocess.STDOUT,
+        self.p = subprocess.Popen([yardl, "generate", "--watch"] + list(args), cwd=os.path.join(root, pkgdir), env=env, stdout=self.out, stderr=subprocess.STDOUT,
                                   stdin=subprocess.DEVNULL, start_new_session=True)
 
     def events(self):
@@ -187,6 +187,13 @@ def schedules(quick):
         ("subdir-lib-file-edited", "", [(0, "model", 1, "inplace"), (400, "lib-sub-file", 2, "inplace")]),
         ("new-subdir-file-added", "", [(0, "model", 1, "inplace"), (400, "sub-file", 2, "inplace"), (400, "sub-file", 3, "inplace")]),
         ("new-lib-subdir-file-added", "", [(0, "model", 1, "inplace"), (400, "lib-sub-file", 2, "inplace"), (400, "lib-sub-file", 3, "rename")]),
+        # the imported package becomes invalid and is repaired by saves inside the imported package only
+        ("lib-broken-then-fixed-in-lib", "", [(0, "lib", 1, "inplace"), (400, "lib-invalid", 2, "inplace"), (400, "lib", 3, "inplace")]),
+        ("lib-broken-twice-then-fixed-in-lib", "", [(0, "model", 1, "inplace"), (400, "lib-invalid", 2, "rename"), (300, "lib-invalid", 3, "inplace"), (400, "lib", 4, "rename")]),
+        ("single-import-lib-broken-then-fixed-in-lib", "", [(0, "lib", 1, "inplace"), (400, "lib-invalid", 2, "inplace"), (400, "lib", 3, "inplace")]),
+        # "override-": the watcher is started with -c overrides that differ from the manifest; the reference run gets the same overrides
+        ("override-output-dir-then-saves", "", [(0, "model", 1, "inplace"), (400, "model", 2, "rename"), (400, "lib", 3, "inplace")]),
+        ("override-then-invalid-then-valid", "", [(0, "model", 1, "inplace"), (300, "invalid", 2, "inplace"), (300, "model", 3, "inplace")]),
         # "first-": the saves start while the watcher's very first generation is still running (held at regen.validated#1), and nothing is saved afterwards
         ("first-generation-save", "regen.validated#1=1200", [(150, "model", 1, "inplace")]),
         ("first-generation-save-rename", "regen.validated#1=1200", [(150, "model", 1, "rename")]),
@@ -224,7 +231,8 @@ def run(ctx):
         write_tree(root, 0, single_import=single)
         if name.startswith("subdir-"):
             common.write_tree(root, {"main/sub/deep/extra.yml": "SubFile0: !record\n  fields:\n    z: int\n", "lib/more/extra.yml": "LibSub0: !record\n  fields:\n    z: int\n"})
-        w = Watcher(root, os.path.join(root, "home"), yardl, delays)
+        overrides = ["-c", "python.outputDir=../out_override/python", "-c", "cpp.generateNDJson=false", "-c", "json.outputDir=../out_override/json"] if name.startswith("override-") else []
+        w = Watcher(root, os.path.join(root, "home"), yardl, delays, args=overrides)
         os.makedirs(os.path.join(root, "home"), exist_ok=True)
         verdict = {"name": name, "saves": len(steps)}
         try:
@@ -262,6 +270,9 @@ def run(ctx):
                 elif kind == "lib":
                     lib_text = (LIB_ALONE if single else LIB) + "LibExtra%d: !record\n  fields:\n    q: int\n" % v
                     save(os.path.join(root, "lib/lib.yml"), lib_text, how)
+                elif kind == "lib-invalid":
+                    save(os.path.join(root, "lib/lib.yml"), (LIB_ALONE if single else LIB) + "LibBroken%d: !record\n  fields:\n    q: NoSuchType\n" % v, how)
+                    invalid_seen = True
                 elif kind == "lib-bad-import":
                     save(os.path.join(root, "lib/_package.yml"), "namespace: Lib\nimports:\n  - htps://example.invalid/base\n", how)
                     invalid_seen = True
@@ -325,11 +336,19 @@ def run(ctx):
                 common.write_tree(ref, {"main/sub/deep/extra.yml": sub})
             if libsub is not None:
                 common.write_tree(ref, {"lib/more/extra.yml": libsub})
-            p = cli.run_cli("generate", os.path.join(ref, "main"), home)
+            p = cli.run_cli("generate", os.path.join(ref, "main"), home, overrides)
             if p.rc != 0:
                 raise Inconclusive("%s: reference one-shot generate failed: %s" % (name, cli.clean(p.stderr)[:300]))
             want = {k: v[3] for k, v in fsmon.snapshot(os.path.join(ref, "out")).items() if v[0] == "file"}
             have = {k: v[3] for k, v in fsmon.snapshot(os.path.join(root, "out")).items() if v[0] == "file"}
+            if overrides:
+                want.update({"override/" + k: v[3] for k, v in fsmon.snapshot(os.path.join(ref, "out_override")).items() if v[0] == "file"})
+                if os.path.isdir(os.path.join(root, "out_override")):
+                    have.update({"override/" + k: v[3] for k, v in fsmon.snapshot(os.path.join(root, "out_override")).items() if v[0] == "file"})
+                extra = sorted(k for k in have if k not in want and not k.startswith("override/"))
+                if extra:
+                    # output that only exists because the overrides were dropped at some point
+                    want.update({k: None for k in extra[:20]})
             stale = sorted(k for k in want if have.get(k) != want[k])
             ctx.case(name)
             ctx.count("kind." + name.split("-")[0])
@@ -342,7 +361,7 @@ def run(ctx):
             else:
                 # idempotence of a one-shot run in place
                 before = fsmon.snapshot(os.path.join(root, "out"))
-                p2 = cli.run_cli("generate", os.path.join(root, "main"), home)
+                p2 = cli.run_cli("generate", os.path.join(root, "main"), home, overrides)
                 after = fsmon.snapshot(os.path.join(root, "out"))
                 d = fsmon.diff(before, after, content_only=True)
                 if p2.rc == 0 and d:
